@@ -42,6 +42,16 @@ def build():
     return time.time() - t0
 
 
+def sweep_scratch():
+    """Removes /var/tmp/vsim-<pid> directories of worker processes that are gone (a crashed worker cannot clean up after itself)."""
+    try:
+        for d in os.listdir("/var/tmp"):
+            if d.startswith("vsim-") and d[5:].isdigit() and not os.path.exists("/proc/" + d[5:]):
+                subprocess.run(["rm", "-rf", os.path.join("/var/tmp", d)])
+    except OSError:
+        pass
+
+
 def worker_env(gomaxprocs=1):
     env = dict(os.environ)
     env["GODEBUG"] = "asynctimerchan=0"
@@ -486,6 +496,7 @@ def main():
 
     prop, tier = sys.argv[1], sys.argv[2]
     spec = PROPS[prop]
+    sweep_scratch()
     t_start = time.time()
     base = int(os.environ.get("VERIF_SEED", "20260927")) & 0xFFFFFFFFFFFF
     print("VERIF_SEED=%d property=%s tier=%s" % (base, prop, tier), flush=True)
